@@ -20,8 +20,8 @@ import (
 
 type Case struct {
 	G      *cfgm.G
-	Named  bool // list parameters declared with named slice types (assignable, not identical)
-	Layout int  // where _onBounds sits among the parser type's methods (pgo.Opts.BoundsLayout)
+	Named  bool   // list parameters declared with named slice types (assignable, not identical)
+	Layout int    // where _onBounds sits among the parser type's methods (pgo.Opts.BoundsLayout)
 	Nil    uint64 `json:",omitempty"` // rules whose actions return a nil `any` (pgo.Opts.NilMask)
 	Inputs [][]int
 	Lox    string `json:",omitempty"`
